@@ -49,11 +49,12 @@ CHECKS["C08"] = ("Routing.tla",
     "Trusted: TLC, servers.py, the reference conversion int/Decimal/UUID/date in the adapter.",
     "DESIGN.md 5 C08")
 
-CHECKS["C03"] = ("Range.tla, RangeOps.tla, TraceRange.tla",
+CHECKS["C03"] = ("Range.tla, RangeOps.tla, TraceRange.tla, RangeSym.tla (Apalache)",
     "TLC exhaustive model check of the parse_range pipeline (extract, satisfiability, order, sort, merge loop) against "
     "Classify / CanonicalOut / ExactUnion; every input rendered in 4 header syntaxes to the real parse_range; large "
     "random range sets validated by TLC against TraceRange.tla with their own numbers; arbitrary text for class/canonicity; "
-    "the pre-repair mechanism (Fixed=FALSE) kept as a witness that must violate the invariants",
+    "the pre-repair mechanism (Fixed=FALSE) kept as a witness that must violate the invariants; Apalache decides CanonicalOut and "
+    "ExactUnion on RangeSym.tla symbolically for all natural sizes and numbers (up to 3 specs)",
     "All sizes and range sets with up to 3 specs of every form over 0..3 (thorough 0..4) exhaustively; union equality by "
     "agreement on critical points, which also decides the recorded large-number cases.",
     "Trusted: TLC, header rendering in the adapter. Either 400 or 416 accepted when both apply.",
